@@ -3,7 +3,7 @@ import copy
 
 from hypothesis import strategies as st
 
-from pbt import progsim as PS, faultrun as FR
+from pbt import progsim as PS, faultrun as FR, values as V
 from pbt.runner import Violation, hyp_search
 
 LEVEL = 'fault_enumeration'
@@ -12,7 +12,8 @@ RULE = ('Hypothesis generates a sequential program (<= 6 steps) and recording pa
         'ignore-forcing, copy-on-interception); the harness enumerates every single placement of every fault kind at '
         'every step - capture faults (key cannot be built, data handler raises), explicit discards from the operation '
         'and from inside intercepted bodies, forced sampling, ordinary exceptions and interrupt-style (BaseException) '
-        'terminations in the operation and inside intercepted bodies, unserialisable values, failing save, failing '
+        'terminations in the operation and inside intercepted bodies, a call of another decorated operation of the same '
+        'recorder (refused while a recording runs; the operation copes and goes on), unserialisable values, failing save, failing '
         'extractor - plus a seeded sample of fault pairs. Oracle over the spy cassette log grouped by recording id: '
         'every created recording has exactly one finalisation (save xor abort); if a capture failed or a discard '
         'happened the finalisation is abort and the serialised store is unchanged; afterwards every recording present '
@@ -40,17 +41,27 @@ def check_case(ctx, case):
     what = 'faults=%r params=%r' % (case['faults'], case.get('params'))
     fr = FR.FaultRun(prog, flags, enabled=True, cassette=case.get('cassette', 'memory'), seed=case.get('seed', 3))
     try:
-        created = [e[1] for e in fr.spy_log if e[0] == 'create']
+        # an inner operation called after the outer recording was discarded is no longer refused: it gets a
+        # recording of its own (category <class>Inner), which must be finalised exactly once as well
+        inner_cat = fr.cls.__name__ + 'Inner'
+        all_created = [e[1] for e in fr.spy_log if e[0] == 'create']
+        inner_created = [r for r in all_created if r.split('/')[0] == inner_cat]
+        created = [r for r in all_created if r not in inner_created]
         if len(created) != 1:
             raise Violation('operation created %d recordings: %r (%s)' % (len(created), fr.spy_log, what), 'created')
         rid = created[0]
+        for r in [rid] + inner_created:
+            fin = [e for e in fr.spy_log if e[0] in ('save', 'abort') and e[1] == r]
+            if len(fin) != 1:
+                raise Violation('recording %s finalised %d times (%r), expected exactly once (%s)' % (
+                    r.split('/')[0], len(fin), [e[0] for e in fin], what), 'exactly-once')
         fin = [e for e in fr.spy_log if e[0] in ('save', 'abort') and e[1] == rid]
-        if len(fin) != 1:
-            raise Violation('recording finalised %d times (%r), expected exactly once (%s)' % (
-                len(fin), [e[0] for e in fin], what), 'exactly-once')
-        stray = [e for e in fr.spy_log if e[1] != rid]
+        stray = [e for e in fr.spy_log if e[1] not in all_created]
         if stray:
             raise Violation('cassette calls for other recordings: %r' % (stray,), 'created')
+        if inner_created:
+            fr.before = dict((k, v) for k, v in fr.before.items() if inner_cat not in str(k))
+            fr.after = dict((k, v) for k, v in fr.after.items() if inner_cat not in str(k))
         kind = fin[0][0]
         if (eff['capture_failed'] or eff['discarded']) and kind != 'abort':
             raise Violation('recording was handed to save although %s (%s)' % (
@@ -112,6 +123,8 @@ def check_case(ctx, case):
                 except RecordingKeyError as e:
                     raise Violation('saved, complete recording does not replay on unchanged code: %s (%s)' % (e, what),
                                     'saved-replays')
+                except V.Interrupt:
+                    pass    # the replayed program ends by its interrupt again; how such a run is flagged is C18's matter
                 bodies = [j for j in fr.W.journal if j[0] == 'body']
                 if bodies:
                     raise Violation('replay of the saved recording executed wrapped bodies %r (%s)' % (bodies[:3], what),
@@ -186,7 +199,7 @@ def replay(ctx, case):
 
 
 def run(ctx):
-    bases = st.fixed_dictionaries({'prog': FR.base_programs(), 'params': st.sampled_from(PARAMS),
+    bases = st.fixed_dictionaries({'prog': FR.with_nested_operation(FR.base_programs()), 'params': st.sampled_from(PARAMS),
                                    'pair_seed': st.integers(0, 10 ** 6), 'seed': st.integers(0, 50),
                                    'cassette': st.sampled_from(['memory', 'memory', 'file', 's3'])})
     ok = hyp_search(ctx, bases, lambda b: enumerate_case(ctx, b), ctx.pick(30, 200), label='faults')
